@@ -160,3 +160,6 @@ pub fn vp_mut_slice_as_ref<'a>(b: &'a mut [u8]) -> (r: &'a [u8])
     ensures r@ == old(b)@, final(b)@ == old(b)@,
 { &*b }
 
+pub assume_specification<T, E, U, F: FnOnce(T) -> Result<U, E>> [ Result::<T, E>::and_then ] (r: Result<T, E>, op: F) -> (out: Result<U, E>)
+    requires r matches Ok(t) ==> op.requires((t,)),
+    ensures match r { Ok(t) => op.ensures((t,), out), Err(e) => out == Err::<U, E>(e) };
